@@ -14,7 +14,7 @@ use std::sync::{Arc, Mutex};
 use std::task::{Context, Poll};
 
 use events::{AutoResetEvent, EmbeddedAutoResetEvent, EmbeddedAutoResetEventRef, EmbeddedManualResetEvent, EmbeddedManualResetEventRef, ManualResetEvent};
-use p_events::{Op, OpKind, linearize_manual_two_point, linearize_with, real_time_order};
+use p_events::{Op, OpKind, linearize_manual_two_point, linearize_manual_two_point_opt, linearize_with, real_time_order};
 use p_events_once::{Ledger, waker};
 use proptest::prelude::*;
 use serde::{Deserialize, Serialize};
@@ -372,6 +372,9 @@ fn check(case: &Case, ctx: &mut Ctx) -> Verdict {
             // explained only if set() publishes the flag and releases its waiters in separate
             // steps (observable when a reset runs concurrently with a set)
             return Err(f("history/not-linearizable/set-flag-and-waiter-release-not-atomic", format!("the history has no linearization with an atomic set(); it is explained by set() publishing the flag and releasing waiters in separate steps with a concurrent reset(): {}", text.join(" "))));
+        }
+        if manual && linearize_manual_two_point_opt(&ex.ops, &before, true) {
+            return Err(f("history/not-linearizable/set-on-already-set-flag-returns-before-pending-release", format!("the history has no linearization with an atomic set(); it is explained by set() publishing the flag and releasing waiters in separate steps, with a second set() that finds the flag already published returning at once while the first is still between its steps: {}", text.join(" "))));
         }
         return Err(f("history/not-linearizable", format!("no sequential order of the calls respects real time and the specification: {}", text.join(" "))));
     }
@@ -875,6 +878,9 @@ fn run_local<E: LEv>(case: &LCase, ev: E, keep: Box<dyn FnOnce()>, ctx: &mut Ctx
         let text: Vec<String> = hist.iter().map(|o| format!("d{}:{:?}[{}..{}]", o.task, o.kind, o.inv, o.res)).collect();
         if E::MANUAL && linearize_manual_two_point(&ops, &before) {
             return Err(fl("history/not-linearizable/set-flag-and-waiter-release-not-atomic", format!("explained only by a set() that publishes the flag and releases waiters in separate steps: {}", text.join(" "))));
+        }
+        if E::MANUAL && linearize_manual_two_point_opt(&ops, &before, true) {
+            return Err(fl("history/not-linearizable/set-on-already-set-flag-returns-before-pending-release", format!("explained only by a set() that publishes the flag and releases waiters in separate steps, and a second (here: nested) set() that finds the flag already published and returns at once: {}", text.join(" "))));
         }
         return Err(fl("history/not-linearizable", format!("no sequential order of the (nested) calls respects their nesting and the specification: {}", text.join(" "))));
     }
